@@ -1323,7 +1323,39 @@ func YamlBodyDecoder(body io.Reader, header http.Header, schema *openapi3.Schema
 	if err := yaml.NewDecoder(body).Decode(&value); err != nil {
 		return nil, &ParseError{Kind: KindInvalidFormat, Cause: err}
 	}
+	if err := checkYamlMappingKeys(value); err != nil {
+		return nil, &ParseError{Kind: KindInvalidFormat, Cause: err}
+	}
 	return value, nil
+}
+
+// checkYamlMappingKeys rejects mappings with a key that is not a string (null,
+// number, sequence...): such a value has no JSON counterpart to validate.
+func checkYamlMappingKeys(value any) error {
+	switch v := value.(type) {
+	case map[any]any:
+		for key, item := range v {
+			if _, ok := key.(string); !ok {
+				return fmt.Errorf("mapping key %v is not a string", key)
+			}
+			if err := checkYamlMappingKeys(item); err != nil {
+				return err
+			}
+		}
+	case map[string]any:
+		for _, item := range v {
+			if err := checkYamlMappingKeys(item); err != nil {
+				return err
+			}
+		}
+	case []any:
+		for _, item := range v {
+			if err := checkYamlMappingKeys(item); err != nil {
+				return err
+			}
+		}
+	}
+	return nil
 }
 
 func UrlencodedBodyDecoder(body io.Reader, header http.Header, schema *openapi3.SchemaRef, encFn EncodingFn) (any, error) {
